@@ -459,6 +459,9 @@ class CommentGenerator:
         if instruction.address != self.exp_addr:
             self.ctx = None
         decoder, template, fctx = self.ops[instruction.bytes[0]]
+        if len(instruction.bytes) == 1 and instruction.bytes[0] in (0xCB, 0xDD, 0xED, 0xFD):
+            # A prefix byte with no opcode after it (disassembled as DEFB)
+            decoder, template, fctx = None, '', None
         if decoder is None:
             rv = template
         elif template is None:
